@@ -41,10 +41,31 @@ func GetJsonDataType(t dsl.Type) JsonDataType {
 	}
 
 	if len(gt.Cases) > 1 {
-		panic("unexpected union type")
+		// A union reached through a named type: written untagged it looks like any of its cases,
+		// written tagged it is an object (or null)
+		var possibleTypes JsonDataType
+		simplified := true
+		for _, c := range gt.Cases {
+			caseTypes := GetJsonDataType(c.Type)
+			if possibleTypes&caseTypes != 0 {
+				simplified = false
+			}
+			possibleTypes |= caseTypes
+		}
+		if simplified {
+			return possibleTypes
+		}
+		if gt.Cases.HasNullOption() {
+			return JsonObject | JsonNull
+		}
+		return JsonObject
 	}
 
-	scalarType := gt.Cases[0].Type.(*dsl.SimpleType)
+	scalarType, isSimpleType := gt.Cases[0].Type.(*dsl.SimpleType)
+	if !isSimpleType {
+		// a single-case wrapper around a vector, array, map or union
+		return GetJsonDataType(gt.Cases[0].Type)
+	}
 	switch td := scalarType.ResolvedDefinition.(type) {
 	case dsl.PrimitiveDefinition:
 		switch td {
